@@ -66,8 +66,8 @@ func (vc *VC) readInto(st *State, r Val, p Val) (string, Val) {
 	na := vc.freshConst("rda", arrSort(sBV64, sBV8))
 	q := vc.fresh("i")
 	inr := and(app("bvsle", p.L[1], q), app("bvslt", q, app("bvadd", p.L[1], n)))
-	vc.assume("true", fmt.Sprintf("(forall ((%s %s)) (! (= (select %s %s) %s) :pattern ((select %s %s))))", q, sBV64, na, q,
-		ite(inr, vc.inAt(r, app("bvadd", pos, app("bvsub", q, p.L[1]))), sel(old, q)), na, q))
+	vc.assume("true", fmt.Sprintf("(forall ((%s %s)) (! (and (= (select %s %s) %s) %s) :pattern ((select %s %s))))", q, sBV64, na, q,
+			ite(inr, vc.inAt(r, app("bvadd", pos, app("bvsub", q, p.L[1]))), sel(old, q)), rangeEquiv(q, p.L[1], n), na, q))
 	vc.setHeap(st, hn, hs, sto(h, p.L[0], na))
 	vc.setPos(st, r, np)
 	return n, err
@@ -124,8 +124,8 @@ func init() {
 		na := vc.freshConst("rfa", arrSort(sBV64, sBV8))
 		q := vc.fresh("i")
 		inr := and(app("bvsle", p.L[1], q), app("bvslt", q, app("bvadd", p.L[1], n)))
-		vc.assume("true", fmt.Sprintf("(forall ((%s %s)) (! (= (select %s %s) %s) :pattern ((select %s %s))))", q, sBV64, na, q,
-			ite(inr, vc.inAt(r, app("bvadd", pos, app("bvsub", q, p.L[1]))), sel(old, q)), na, q))
+		vc.assume("true", fmt.Sprintf("(forall ((%s %s)) (! (and (= (select %s %s) %s) %s) :pattern ((select %s %s))))", q, sBV64, na, q,
+			ite(inr, vc.inAt(r, app("bvadd", pos, app("bvsub", q, p.L[1]))), sel(old, q)), rangeEquiv(q, p.L[1], n), na, q))
 		vc.setHeap(st, hn, hs, sto(h, p.L[0], na))
 		vc.setPos(st, r, np)
 		return Val{T: rt, L: append([]string{n}, err.L...)}
